@@ -350,7 +350,7 @@ func vhSSO(maxKids, kinds int, modes int) {
 	vDebugErr("ValidateEncodedResponse", err)
 
 	vAssert("C09.result-xor-error", (resp != nil) != (err != nil))
-	vAssert("C02.validation-context-uses-configured-store-and-sp-clock", vValidateCtxOK(sp))
+	vAssert("C02,C05.only-the-sp-clock-is-consulted", vWallReads() == 0)
 	rejectedCerts := vCertRejections()
 	if err != nil {
 		vReach("rejected", true)
@@ -643,4 +643,37 @@ func VH_C09_bare_config() {
 		vAssert("C09.result-xor-error", (r != nil) != (err != nil))
 	}
 	vReach("returned", true)
+}
+
+// VH_C02_cert_window: the SP clock (not the wall clock) decides whether the IdP certificate is inside its
+// validity period: with the SP clock beyond the certificate's NotAfter (2100-01-01) every validly signed
+// message is rejected by all four validating entry points.
+func VH_C02_cert_window() {
+	sp := vhOrchSP(false)
+	vClockBetween("sp", 4133980800000000000, 7258118400000000000) // 2101 .. 2200
+	sp.ServiceProviderSLOURL = vString("slo")
+	var err error
+	switch vChoice("entry", 4) {
+	case 0, 1:
+		s := &vhScenario{rootSig: vChoice("root.sig", 2)}
+		s.root = vhResponseRoot(s, "samlp:Response")
+		a := vhAssertionEl("c0", vhSigValid)
+		vAssume(a.ID != s.ID)
+		s.root.AddChild(a.el)
+		enc := vEncodeDoc("wire", s.root, 0)
+		if vFlag("via-retrieve") {
+			_, err = sp.RetrieveAssertionInfo(enc)
+		} else {
+			_, err = sp.ValidateEncodedResponse(enc)
+		}
+	case 2:
+		l := vhLogoutRoot("samlp:LogoutRequest", vhSigValid, "root")
+		_, err = sp.ValidateEncodedLogoutRequestPOST(vEncodeDoc("wire", l.root, 0))
+	case 3:
+		l := vhLogoutRoot("samlp:LogoutResponse", vhSigValid, "root")
+		_, err = sp.ValidateEncodedLogoutResponsePOST(vEncodeDoc("wire", l.root, 0))
+	}
+	vDebugErr("validate", err)
+	vReach("rejected", err != nil)
+	vAssert("C02.certificate-outside-its-validity-at-the-sp-clock-is-fatal", err != nil)
 }
